@@ -18,6 +18,8 @@ HEXVAL = z3.Function("HEXVAL", S, I)          # int(s, 16)
 INTVAL = z3.Function("INTVAL", S, I)          # int(s)
 FLOATVAL = z3.Function("FLOATVAL", S, R)      # float(s)
 FIN = z3.Function("isfinite", R, B)
+FLOAT_SYNTAX = z3.Function("float_syntax", S, B)   # s has the decimal syntax float() accepts (\\d+ or \\d+\\.\\d+)
+INT_SYNTAX = z3.Function("int_syntax", S, B)       # s is a non-empty run of decimal digits
 LOWER = z3.Function("str_lower", S, S)
 COUNT = z3.Function("str_count", S, S, I)
 MAYRAISE = {}
@@ -139,7 +141,7 @@ def install_externals(reg):
                         pok.facts.append(z3.Implies(z3.Length(v) == k, r < 16 ** k))
                     res.append((pok, r))
                 return res
-            ok = z3.InRe(v, z3.Plus(z3.Range("0", "9")))
+            ok = INT_SYNTAX(v)
             pok, pbad = ex.split(p, ok)
             res = []
             if pbad is not None:
@@ -157,7 +159,7 @@ def install_externals(reg):
     def b_float(ex, p, pos, kw, node):
         v = pos[0]
         if z3.is_expr(v) and v.sort() == S:
-            ok = z3.InRe(v, z3.Concat(z3.Plus(z3.Range("0", "9")), z3.Option(z3.Concat(z3.Re("."), z3.Star(z3.Range("0", "9"))))))
+            ok = FLOAT_SYNTAX(v)
             pok, pbad = ex.split(p, ok)
             res = []
             if pbad is not None:
